@@ -14,7 +14,7 @@ PROPS = {
         props_file="CCall/Props_C17.v",
         models=[
             dict(name="ccall", pkg="./ccallx", test="TestCCall", coq_mod="CCall.Spec", run_check="run_check_ccall",
-                 corpus="ccall", quick_n=2500, thorough_n=250000, nontrivial=nt_ccall,
+                 corpus="ccall", quick_n=2500, thorough_n=150000, nontrivial=nt_ccall,
                  rule="one CallConcurrently call per history: 0-5 entries incl. nil entries (also only nil entries), caller context cancelled "
                       "before / during the call or never, every function returns nil / context.Canceled / one of three errors in an "
                       "implementation-driven random order against the caller's gates (entry AND exit gates of the caller's two sections, entry "
